@@ -3,6 +3,7 @@ module verifharness
 go 1.19
 
 require (
+	github.com/evanphx/json-patch v4.12.0+incompatible
 	github.com/openkruise/kruise-api v1.3.0
 	github.com/openkruise/rollouts v0.0.0
 	k8s.io/api v0.26.3
@@ -20,7 +21,6 @@ require (
 	github.com/cespare/xxhash/v2 v2.1.2 // indirect
 	github.com/davecgh/go-spew v1.1.1 // indirect
 	github.com/emicklei/go-restful/v3 v3.9.0 // indirect
-	github.com/evanphx/json-patch v4.12.0+incompatible // indirect
 	github.com/evanphx/json-patch/v5 v5.6.0 // indirect
 	github.com/fsnotify/fsnotify v1.6.0 // indirect
 	github.com/go-logr/logr v1.2.3 // indirect
